@@ -36,7 +36,7 @@ FILTER_NAMES = ["default", "kind==a", "kind==b", "kind!=a", "even", "never", "al
 
 class Tok:
     __slots__ = ("id", "side", "actor", "prio", "filt", "ev", "t_issue", "seq", "state", "t_grant",
-                 "obs_grant", "granted_in_call", "item", "probe", "grant_ctx")
+                 "obs_grant", "obs_issue", "granted_in_call", "item", "probe", "grant_ctx")
 
     def __init__(self, id, side, actor, prio, filt, ev, t_issue, seq):
         self.id = id
@@ -50,6 +50,7 @@ class Tok:
         self.state = "pending"   # pending | granted | used | cancelled
         self.t_grant = None
         self.obs_grant = None
+        self.obs_issue = None
         self.granted_in_call = False
         self.item = None
         self.probe = False
@@ -248,6 +249,7 @@ class StoreRun:
         self.flags = set()
         self.in_call = False
         self.current_op_index = -1
+        self.last_trigger = "start"
         self.log = []            # human-readable trace for diagnostics
         self._park = self.env.event()
         self.actors = [self.env.process(self._actor()) for _ in range(self.n_actors + 1)]
@@ -258,15 +260,18 @@ class StoreRun:
 
     # ---------------------------------------------------------------- kernel control
     def _poll_grants(self, in_call):
-        for t in self.toks:
-            if t.state == "pending" and t.ev.triggered:
-                t.state = "granted"
-                t.t_grant = self.env.now
-                t.obs_grant = self.obs
-                t.granted_in_call = in_call
-                for o in self.oracles:
-                    if hasattr(o, "on_grant"):
-                        o.on_grant(self, t)
+        # two phases: everything that became triggered within one observation step is marked
+        # granted before any oracle looks at it (otherwise "still pending" would be judged mid-step)
+        new = [t for t in self.toks if t.state == "pending" and t.ev.triggered]
+        for t in new:
+            t.state = "granted"
+            t.t_grant = self.env.now
+            t.obs_grant = self.obs
+            t.granted_in_call = in_call
+        for t in new:
+            for o in self.oracles:
+                if hasattr(o, "on_grant"):
+                    o.on_grant(self, t)
 
     def step(self):
         if self.env.peek() > self.env.now:
@@ -284,6 +289,7 @@ class StoreRun:
                 o.kernel_exception(self, e)
             raise Abort("kernel_exception:%s" % type(e).__name__)
         self.obs += 1
+        self.last_trigger = "timer"
         self.events_this_instant += 1
         if self.events_this_instant > MAX_EVENTS_PER_INSTANT:
             for o in self.oracles:
@@ -293,6 +299,14 @@ class StoreRun:
         self._poll_grants(False)
         for o in self.oracles:
             o.after_kernel_event(self)
+
+    def run_urgent(self):
+        """A process that calls put() yields before any other process can touch the store, and the
+        kernel then starts the processes spawned by put() first (Initialize events are URGENT).
+        Reproduce exactly that: drain the URGENT events due now."""
+        q = self.env._queue
+        while q and q[0][0] <= self.env.now and q[0][1] <= 0:
+            self.step()
 
     def settle(self):
         while self.env.peek() <= self.env.now:
@@ -371,6 +385,7 @@ class StoreRun:
                 outcome.update(status="exc", exc=v)
             else:
                 t = Tok(len(self.toks), side, actor, prio, filt_id, v, self.env.now, len(self.toks))
+                t.obs_issue = self.obs
                 self.toks.append(t)
                 outcome["tok"] = t
                 for o in self.oracles:
@@ -393,6 +408,13 @@ class StoreRun:
                 st, v = self.as_actor(t.actor, S.put, t.ev, item, delay)
                 if st == "exc":
                     outcome.update(status="exc", exc=v)
+                    if any(item is x for x in S.in_transit() + S.ready()):
+                        # the store took the item (and consumed the token) and failed afterwards
+                        t.state = "used"
+                        t.item = item
+                        self.put_items.append(item)
+                        self.put_time[id(item)] = self.env.now
+                        self.put_delay[id(item)] = delay
                 else:
                     outcome["value"] = v
                     t.state = "used"
@@ -400,6 +422,7 @@ class StoreRun:
                     self.put_items.append(item)
                     self.put_time[id(item)] = self.env.now
                     self.put_delay[id(item)] = delay
+                self.run_urgent()
         elif k == "get":
             el = self.eligible("get")
             if not el:
@@ -463,6 +486,8 @@ class StoreRun:
                     continue
                 self.executed_ops += 1
                 self.obs += 1
+                if op[0] not in ("settle", "adv"):
+                    self.last_trigger = op[0] + ("_" + outcome["was"] if "was" in outcome else "")
                 if op[0] not in ("settle", "adv"):
                     self._poll_grants(True)
                 for o in self.oracles:
